@@ -86,6 +86,64 @@ impl PartialEq for Tk {
     }
 }
 
+/// live instances of the zero-sized token
+pub static LIVE_Z: AtomicI64 = AtomicI64::new(0);
+
+/// The zero-sized twin of `Tk`: a registered `#[clone]` type without a single byte of state.
+/// Its `Clone` and `Drop` still have effects (the instance counters), so a compiler that
+/// treats "no storage" as "nothing to clone" or "nothing to drop" is seen. A release that finds
+/// no live instance is a double drop (it released something that was never created).
+#[derive(Debug)]
+pub struct Tz;
+
+impl Tz {
+    pub fn new() -> Tz {
+        LIVE_Z.fetch_add(1, SeqCst);
+        CREATED.fetch_add(1, SeqCst);
+        Tz
+    }
+}
+
+impl Clone for Tz {
+    fn clone(&self) -> Tz {
+        LIVE_Z.fetch_add(1, SeqCst);
+        CLONED.fetch_add(1, SeqCst);
+        Tz
+    }
+}
+
+impl Drop for Tz {
+    fn drop(&mut self) {
+        if LIVE_Z.fetch_sub(1, SeqCst) > 0 {
+            DROPPED.fetch_add(1, SeqCst);
+        } else {
+            LIVE_Z.fetch_add(1, SeqCst);
+            DOUBLE_DROP.fetch_add(1, SeqCst);
+        }
+    }
+}
+
+impl PartialEq for Tz {
+    fn eq(&self, _: &Tz) -> bool {
+        true
+    }
+}
+
+/// the token type `main` receives: the sized `Tk` or the zero-sized `Tz`
+pub trait Token: Sized {
+    fn fresh() -> Self;
+}
+impl Token for Tk {
+    fn fresh() -> Tk {
+        Tk::new(1000)
+    }
+}
+impl Token for Tz {
+    fn fresh() -> Tz {
+        Tz::new()
+    }
+}
+
 #[derive(Clone, Copy, Debug, Default, PartialEq)]
 pub struct Counters {
     pub live: i64,
@@ -99,7 +157,7 @@ pub struct Counters {
 
 pub fn counters() -> Counters {
     Counters {
-        live: with_live(|l| l.len() as i64),
+        live: with_live(|l| l.len() as i64) + LIVE_Z.load(SeqCst),
         created: CREATED.load(SeqCst),
         cloned: CLONED.load(SeqCst),
         dropped: DROPPED.load(SeqCst),
@@ -146,6 +204,37 @@ pub fn runtime() -> Runtime<NoCtx> {
 
         /// consume a string, return its length
         fn slen(s: RotoString) -> u32 { s.to_string().len() as u32 }
+
+        /// zero-sized drop-tracked token
+        #[clone] type Tz = Val<Tz>;
+
+        /// create a zero-sized token
+        fn mkz(_i: u32) -> Val<Tz> { Val(Tz::new()) }
+
+        /// consume a zero-sized token
+        fn idz(_t: Val<Tz>) -> u32 { 0 }
+
+        /// consume two zero-sized tokens
+        fn samez(_a: Val<Tz>, _b: Val<Tz>) -> bool { true }
+
+        /// pass a zero-sized token through the host
+        fn thruz(t: Val<Tz>) -> Val<Tz> { t }
+
+        /// consume a zero-sized token, make a string
+        fn namez(_t: Val<Tz>) -> RotoString { RotoString::from("tz") }
+
+        /// Some(token) when c, None otherwise
+        fn maybez(c: bool, _i: u32) -> Option<Val<Tz>> { if c { Some(Val(Tz::new())) } else { None } }
+
+        /// a list of k fresh zero-sized tokens
+        fn manyz(k: u32) -> List<Val<Tz>> {
+            let l = List::new();
+            for _ in 0..k { l.push(Val(Tz::new())); }
+            l
+        }
+
+        /// consume a list, return its length
+        fn countz(l: List<Val<Tz>>) -> u32 { l.len() as u32 }
     })
     .expect("runtime")
 }
